@@ -363,7 +363,7 @@ def run(rep, tier, seed):
         parts = 32 if sh[0] * sh[1] >= 9 else 2 if sh[0] * sh[1] >= 6 else 1
         for i in range(parts):
             jobs.append(('tele', sh, p, i, parts, seeds))
-    results = pmap(_work, jobs)
+    results = dyn.pmap_w('work', _work, jobs)
     tot = {'layouts': 0, 'exec': 0, 'outcomes': 0, 'replays': 0, 'nontrivial': 0, 'capped': 0}
     fails = []
     for job, (stats, fl, samples) in zip(jobs, results):
@@ -426,3 +426,6 @@ def run(rep, tier, seed):
         'traces_validated adds the numpy real-seed conformance replays',
         extra={'distinct_outcomes_observed': tot['outcomes'], 'numpy_conformance_replays': tot['replays']},
     )
+
+
+WORKERS = {'work': _work}
